@@ -194,7 +194,7 @@ HANDSHAKE = (b"GET /ws HTTP/1.1\r\nHost: example.com\r\nUpgrade: websocket\r\nCo
              b"Sec-WebSocket-Version: 13\r\n%s\r\n")
 
 
-def session(steps, settings=None, extra_request_headers=b"", handler_attrs=None, on_message=None):
+def session(steps, settings=None, extra_request_headers=b"", handler_attrs=None, on_message=None, request=None):
     """steps: list of
         ("peer", bytes)                 bytes from the peer (frames)
         ("eof",)                        the peer disconnects
@@ -213,6 +213,7 @@ def session(steps, settings=None, extra_request_headers=b"", handler_attrs=None,
     class Handler(WS.WebSocketHandler):
         def open(self):
             box["h"] = self
+            box["proto"] = self.ws_connection
             events.append(("open",))
 
         def on_message(self, message):
@@ -280,7 +281,8 @@ def session(steps, settings=None, extra_request_headers=b"", handler_attrs=None,
             await v.tick(2)
             events.append(("after-step", i, "closed" if stream.closed() else "open", len(bytes(stream.sent)) - head_len))
         marks["tail"] = bytes(stream.sent)[head_len:]
-    res = S.run_server([HANDSHAKE % extra_request_headers], make_app=lambda r: W.Application([(r"/ws", Handler)], **(settings or {})), eof=True, after=after)
+    res = S.run_server([request if request is not None else HANDSHAKE % extra_request_headers], make_app=lambda r: W.Application([(r"/ws", Handler)], **(settings or {})), eof=True, after=after)
     frames, rest = dec_frames(marks.get("tail", b""))
     head = marks.get("head", b"")
-    return {"events": events, "frames": frames, "rest": rest, "status": head.split(b"\r\n", 1)[0], "head": head, "logs": [r for r in res.logs if r[1] in ("ERROR", "CRITICAL")], "final_closed": res.closed}
+    proto = getattr(box.get("h"), "_c17_protocol", None)
+    return {"events": events, "frames": frames, "rest": rest, "status": head.split(b"\r\n", 1)[0], "head": head, "handler": box.get("h"), "protocol": box.get("proto"), "logs": [r for r in res.logs if r[1] in ("ERROR", "CRITICAL")], "final_closed": res.closed}
